@@ -157,6 +157,32 @@ def grammar(ctx, R_):
                     R_.call("jwe.decrypt_json", f"general/any {h!r} key={kn}", lambda: jwe.decrypt_json(copy.deepcopy(d), key, registry=any_reg, sender_key=sender))
 
 
+def json_shapes(ctx, R_):
+    """General JSON serializations whose lists have every small cardinality (empty "recipients" / "signatures", entries
+    that are empty objects) around otherwise acceptable members: a supported enc with an IV of the right size, so that
+    nothing fails before the recipient / signature loop is reached - including the loop that runs zero times."""
+    from joserfc import jws, jwe, rfc7797
+    keys = keyring()
+    for enc, ivl in (("A128GCM", 12), ("A256GCM", 12), ("A128CBC-HS256", 16), ("A256CBC-HS512", 16), ("nope", 12)):
+        for recips in ([], [{}], [{}, {}], [{"header": {}}], [{"header": {"alg": "dir"}}], [{"encrypted_key": ""}],
+                       [{"header": {"alg": "A128KW"}, "encrypted_key": "a2tra2tra2tra2tra2tra2tra2tra2tr"}] * 3):
+            for prot in ({"enc": enc}, {"enc": enc, "alg": "dir"}, {"enc": enc, "alg": "A128KW"}, {"enc": enc, "zip": "DEF"}):
+                d = {"protected": jb(prot).decode(), "iv": b64(b"i" * ivl).decode(), "ciphertext": b64(b"c" * 16).decode(), "tag": b64(b"t" * 16).decode(),
+                     "recipients": copy.deepcopy(recips)}
+                for kn in ("oct16", "rsa2048", "keyset"):
+                    for verify_all in (True, False):
+                        reg = jwe.JWERegistry(algorithms=E.ALL_NAMES, verify_all_recipients=verify_all)
+                        R_.call("jwe.decrypt_json", f"shape recipients={recips!r} prot={prot!r} key={kn} all={verify_all}",
+                                lambda: jwe.decrypt_json(copy.deepcopy(d), keys[kn], registry=reg))
+    # ("signature" is a required member of every entry - the documented shape - so entries without it are not offered)
+    for sigs in ([], [{"signature": ""}], [{"signature": "cw", "header": {}}], [{"protected": jb({"alg": "HS256"}).decode(), "signature": "cw"}] * 2):
+        for payload in ("cA", "", "!!"):
+            v = {"payload": payload, "signatures": copy.deepcopy(sigs)}
+            for kn in ("oct32", "keyset"):
+                R_.call("jws.deserialize_json", f"shape signatures={sigs!r} key={kn}", lambda: jws.deserialize_json(copy.deepcopy(v), keys[kn], algorithms=J.ALL_ALGS))
+                R_.call("rfc7797.deserialize_json", f"shape signatures={sigs!r} key={kn}", lambda: rfc7797.deserialize_json(copy.deepcopy(v), keys[kn], algorithms=J.ALL_ALGS))
+
+
 EMBEDDED_VALUES = [None, True, 0, 1.5, "", "x", "AA", "sig", "enc", "deriveKey", [], ["deriveKey"], ["sign", "verify"], [1], [None], [[]], [["deriveKey"]], [{}],
                    ["deriveKey", {}], ["deriveKey", ["x"]], {}, {"a": []}, "P-256", "X25519", "EC", "OKP", "é", "A" * 43, "_" * 43, 2 ** 70]
 
@@ -427,6 +453,7 @@ def run(ctx):
     grammar(ctx, R_)
     embedded_keys(ctx, R_)
     boundary_integers(ctx, R_)
+    json_shapes(ctx, R_)
     mutations(ctx, R_)
     inner(ctx, R_)
     random_bytes(ctx, R_)
